@@ -4,8 +4,10 @@ d="$(cd "$1" && pwd)"; shift
 git -C /repo diff --quiet || { echo "/repo is dirty"; exit 3; }
 git -C /repo apply "$d/patch.diff" || exit 3
 for id in "$@"; do
+  cp /verif/evidence/$id.json /tmp/.ev-$id-$$.json 2>/dev/null   # evidence must come from runs on the unchanged tree
   out=$(cd /verif && timeout 3000 ./check "$id" --tier "${TIER:-quick}" 2>&1); rc=$?
   echo "== $id rc=$rc"; echo "$out" | grep -E "VIOLATION|KNOWN|HARNESS|seed=" | head -8
+  mv /tmp/.ev-$id-$$.json /verif/evidence/$id.json 2>/dev/null
   echo "$out" | grep -E "^  C[0-9]" | head -4
 done
 git -C /repo checkout -- .
